@@ -1,4 +1,5 @@
 import SeliumModel.Client.PubSubClient
+import SeliumModel.Gen.Frame
 import Driver.Util
 
 namespace Driver.PubClient
@@ -6,26 +7,44 @@ open Selium Selium.Client
 
 def digits (n : Nat) : Bytes := (toString n).toList.map fun c => UInt8.ofNat c.toNat
 
-/-- `pp <codec> <algo> <batch> <n> <class> <fin>`: which items (by index) the subscriber yields, in order.
-    Payload contents, codec and compressor do not matter to the model beyond being lossless (C14); the clock
-    oracle is all-false (by `c03_fidelity_partial` any oracle gives the same items). -/
+/-- the length of item `i` of payload class `cls` as the harness builds it (`<i>|<filler>`) -/
+def itemLen (cls : String) (i : Nat) : Nat :=
+  let pre := (digits i).length + 1
+  if cls.startsWith "X" then (if i = 0 then max pre (nat! (cls.drop 1).toString) else pre)
+  else if cls.startsWith "Z" then nat! (cls.drop 1).toString
+  else if cls = "s" then pre
+  else if cls = "m" then pre + 300
+  else pre + 20000
+
+/-- item `i`: its index, a separator, filler up to its length (+12 for the bincode codec: a `u32` and a length) -/
+def item (codec cls : String) (i : Nat) : Bytes :=
+  let body := digits i ++ [124]
+  body ++ List.replicate (itemLen cls i - body.length + (if codec = "bincode" then 12 else 0)) 120
+
+def indexOf (b : Bytes) : String := String.ofList ((b.takeWhile (· ≠ 124)).map fun x => Char.ofNat x.toNat)
+
+/-- `pp <codec> <algo> <batch> <n> <class> <fin>`: which items (by index) the subscriber yields, in order, and which
+    `send`s the publisher refused. Codec and compressor do not matter to the model beyond being lossless (C14) and
+    the sizes of what they produce: without compression the frame limit regenerated from the source applies; with
+    compression the sizes are not known to the model and the frames are taken to fit. The clock oracle is all-false
+    (by `c03_fidelity_partial` any oracle gives the same items). -/
 def run (t : List String) : String :=
   match t with
-  | [_, _, batch, n, _, fin] =>
+  | [codec, algo, batch, n, cls, fin] =>
     let size : Option Nat := if batch = "-" then none else some (nat! ((batch.splitOn ":").headD "0"))
-    let items : List (Bool × Bytes) := (List.range (nat! n)).map fun i => (false, digits i)
+    let lim : Nat := if algo = "-" then Selium.Gen.Frame.maxMessageSize else 2 ^ 62
+    let items : List (Bool × Bytes) := (List.range (nat! n)).map fun i => (false, item codec cls i)
     let p0 : Pub := { batch := size.map (fun _ => []), size := size.getD 0 }
-    match p0.sendAll bytesCodec noCompression items with
-    | .ok p =>
-      let final := if fin = "y" then p.finish noCompression else .ok p
-      match final with
-      | .ok pf =>
-        let outs := subscriberOutputs bytesCodec noCompression pf.wire
-        let idx := outs.filterMap fun r => match r with | .ok b => some (String.ofList (b.map fun x => Char.ofNat x.toNat)) | _ => none
-        let errs := (outs.filter fun r => !r.isOk).length
-        (if idx.isEmpty then "-" else ",".intercalate idx) ++ s!" errs={errs}"
-      | _ => "ERROR"
-    | _ => "ERROR"
+    let r := p0.sendEach bytesCodec noCompression lim items
+    let refused := (r.2.zipIdx.filter fun x => !x.1).map fun x => toString x.2
+    let final := if fin = "y" then r.1.finish noCompression lim else .ok r.1
+    let pf := match final with | .ok pf => pf | _ => r.1.dropBatch.flush
+    let outs := subscriberOutputs bytesCodec noCompression pf.wire
+    let idx := outs.filterMap fun r => match r with | .ok b => some (indexOf b) | _ => none
+    let errs := (outs.filter fun r => !r.isOk).length
+    (if idx.isEmpty then "-" else ",".intercalate idx) ++ s!" errs={errs}" ++
+      (if refused.isEmpty then "" else " refused=" ++ ",".intercalate refused) ++
+      (match final with | .ok _ => "" | _ => " finish=err")
   | _ => "bad-op"
 
 end Driver.PubClient
